@@ -1113,6 +1113,7 @@ func init() {
 		Run: func(c *core.Ctx) []ob {
 			out := scanSampleF(c)
 			out = append(out, core.Floor("SAMPLEF", nil, "coefficient stores in sampler kernels", c.Stats["samplef_stores"], 4)...)
+			out = append(out, control(c, "SAMPLEF", scanSampleF, "sampleBad")...)
 			return out
 		}})
 }
@@ -1380,6 +1381,7 @@ func init() {
 		Run: func(c *core.Ctx) []ob {
 			out := scanFieldUnset(c)
 			out = append(out, core.Floor("FIELDUNSET", nil, "unexported fields that are read", c.Stats["fieldunset_fields"], 150)...)
+			out = append(out, control(c, "FIELDUNSET", scanFieldUnset, "Unset.k")...)
 			return out
 		}})
 }
@@ -1730,6 +1732,7 @@ func init() {
 		Run: func(c *core.Ctx) []ob {
 			out := scanFlagOrder(c)
 			out = append(out, core.Floor("FLAGORDER", nil, "applications of a masked transform", c.Stats["flagorder_sites"], 3)...)
+			out = append(out, control(c, "FLAGORDER", scanFlagOrder, "applyX")...)
 			return out
 		}})
 }
